@@ -7,6 +7,7 @@ clock and hardware stub.  All oracles of the four properties are evaluated on ev
 a check reports the violations of its own property.
 """
 import copy
+import os
 
 import numpy as np
 
@@ -53,6 +54,18 @@ def plan_run(run_seed, prop):
         if prop != "C09" or progast.has_kind(prog, "sub"):
             break
     tp = st.get("pipeline")
+    many = None
+    if os.environ.get("VERIF_TIER_ACTIVE") == "thorough" and tp.chance(0.0006):
+        # deeper bound, thorough tier only: one subcircuit visited 70 000 times (tallies
+        # far beyond 16 bits), register of one or two qubits
+        many = 70000
+        nq = tp.choice([1, 2])
+        prog = {"lets": [], "reg": ["q", nq], "maps": [], "pulses": None, "macros": [],
+                "body": [{"k": "loop", "count": many, "body": {"k": "seq", "body": [
+                    {"k": "gate", "name": "prepare_all", "args": []},
+                    {"k": "gate", "name": "Rx", "args": [["item", "q", 0], ["num", 0.05]]},
+                    {"k": "gate", "name": "measure_all", "args": []}]}}]}
+        ov = {}
     # an integer-valued let that is only used as a numeric gate argument may be overridden
     # by a non-integral value (the resolver rejects the dictionary if the let is also an
     # index, a count or a size)
@@ -65,6 +78,11 @@ def plan_run(run_seed, prop):
                 ov = trial
             except progast.Invalid:
                 pass
+    if ov and prog["macros"] and tp.chance(0.5):
+        # overrides meet macros: prefer the orders that expand macros before lets
+        plan_pipeline_hint = tp.choice(["expand_macro", "macro_first"])
+    else:
+        plan_pipeline_hint = None
     if tp.chance(0.3):
         # a pulse import in the header; never loaded (autoload_pulses=False), pure header data
         prog["pulses"] = tp.choice(["qscout.v1.std", ".local_pulses", "lab.gates"])
@@ -77,7 +95,7 @@ def plan_run(run_seed, prop):
         "overrides": ov,
         "sampler_mode": tp.weighted([("faithful", 3), ("adversarial", 4), ("numpy", 2)]),
         "hw_encoding": tp.choice(["int", "str", "mixed"]),
-        "pipeline": tp.choice(["plain", "expand_let", "expand_macro", "expand_let_map", "fill_let", "passes_first", "autoload", "run_string", "run_file"]),
+        "pipeline": tp.choice(["plain", "expand_let", "expand_macro", "expand_let_map", "fill_let", "passes_first", "macro_first", "api_kwargs", "autoload", "run_string", "run_file"]),
         "bounding": tp.weighted([("native", 5), ("caller", 1), ("names", 1), ("other_names", 0.7)]),
         "return_usepulses": tp.chance(0.25),
         "rerun": tp.chance(0.35),
@@ -88,6 +106,11 @@ def plan_run(run_seed, prop):
         "scan": tp.chance(0.4),
         "tapes": None,
     }
+    if plan_pipeline_hint:
+        plan["pipeline"] = plan_pipeline_hint
+    plan["shared_backend"] = tp.chance(0.25)
+    if many:
+        plan.update(many_shots=many, pipeline="plain", disturb=None, scan=False, rerun=False, sampler_mode="faithful")
     return plan
 
 
@@ -119,6 +142,17 @@ def permute_branches(prog, tape):
     for s in p["body"]:
         fix(s)
     return p, changed[0]
+
+
+_SHARED_BACKEND = []
+
+
+def shared_backend():
+    if not _SHARED_BACKEND:
+        from jaqalpaq.emulator.unitary import UnitarySerializedEmulator
+
+        _SHARED_BACKEND.append(UnitarySerializedEmulator())
+    return _SHARED_BACKEND[0]
 
 
 def budget_for(M, R, prog):
@@ -196,7 +230,47 @@ def parse_with(plan, text, G, pipeline, scratch=None):
     if pipeline == "passes_first":
         c = parse_jaqal_string(text, **kw)
         return fill_in_map(expand_macros(fill_in_let(expand_subcircuits(c), override_dict=ov)))
+    if pipeline == "macro_first":
+        c = parse_jaqal_string(text, **kw)
+        return fill_in_let(expand_subcircuits(expand_macros(c)), override_dict=ov)
+    if pipeline == "api_kwargs":
+        # the same circuit with every native gate statement re-created through the
+        # object-oriented API, keyword arguments in another order
+        c = parse_jaqal_string(text, expand_let=bool(ov), override_dict=ov, **kw)
+        return rebuild_with_keyword_calls(c, plan["run_seed"])
     raise ValueError(pipeline)
+
+
+def rebuild_with_keyword_calls(c, seed):
+    from jaqalpaq.core.circuit import Circuit
+    from jaqalpaq.core.block import BlockStatement, LoopStatement
+    from jaqalpaq.core.gate import GateStatement
+    from jaqalpaq.core.macro import Macro
+    from .prng import Tape
+
+    t = Tape(H(seed, "kwargs"))
+
+    def go(s):
+        if isinstance(s, GateStatement):
+            if isinstance(s.gate_def, Macro) or not s.parameters:
+                return s
+            items = list(s.parameters.items())
+            t.shuffle(items)
+            return s.gate_def.call(**dict(items))
+        if isinstance(s, LoopStatement):
+            return LoopStatement(s.iterations, go(s.statements))
+        if isinstance(s, BlockStatement):
+            return BlockStatement(parallel=s.parallel, subcircuit=s.subcircuit, iterations=s.iterations, statements=[go(x) for x in s.statements])
+        return s
+
+    n = Circuit(native_gates=c.native_gates)
+    n.constants.update(c.constants)
+    n.registers.update(c.registers)
+    for name, m in c.macros.items():
+        n.macros[name] = Macro(m.name, m.parameters, go(m.body))
+    n.usepulses.extend(c.usepulses)
+    n.body.statements.extend(go(c.body).statements)
+    return n
 
 
 def check_result(viol, tag, res, M, R, sampler, mode):
@@ -429,6 +503,9 @@ def execute(plan):
                     with open(path, "w", encoding="utf8", newline="") as f:
                         f.write(text)
                     return run_jaqal_file(path)
+                if plan.get("shared_backend"):
+                    # one backend object for the whole process (the documented `backend=`)
+                    return run_jaqal_circuit(c, backend=shared_backend())
                 return run_jaqal_circuit(c)
 
             o = seams.outcome_of(job, clock, budget)
@@ -633,6 +710,8 @@ def execute(plan):
     hist = {}
     for tag in [t for t in ("A", "B") if t in circuits and circuits[t] is not None]:
         encs = ("int", "str", "mixed") if tag == "A" else (plan["hw_encoding"],)
+        if plan.get("many_shots"):
+            encs = (plan["hw_encoding"],)
         for enc in encs:
             o = seams.outcome_of(lambda: parse_jaqal_output_list(circuits[tag], list(enc_lists[enc])), clock, budget)
             key = (tag, enc)
@@ -869,6 +948,8 @@ def candidates(plan):
         yield variant(bounding="native")
     if plan.get("scan"):
         yield variant(scan=False)
+    if plan.get("shared_backend"):
+        yield variant(shared_backend=False)
     if plan.get("disturb"):
         yield variant(disturb=None)
     if plan.get("gateset_variant"):
